@@ -68,6 +68,22 @@ def package_objects(prefixes=("pyscsi",)):
     return out
 
 
+def clear_function_caches(prefixes=("pyscsi",)):
+    """functools caches around functions of the package are state that outlives a call but is invisible to a
+    namespace comparison: every restore empties them (a case / a native run starts with empty caches)"""
+    n = 0
+    for owner, _ in package_objects(prefixes):
+        for v in list(vars(owner).values()):
+            f = getattr(v, "__func__", v)
+            if callable(getattr(f, "cache_clear", None)) and callable(getattr(f, "cache_info", None)):
+                try:
+                    f.cache_clear()
+                    n += 1
+                except Exception:
+                    pass
+    return n
+
+
 class StateGuard:
     def __init__(self, prefixes=("pyscsi",), extra_objects=()):
         self.owners = package_objects(prefixes)
@@ -132,6 +148,7 @@ class StateGuard:
         return out
 
     def restore(self, diffs=None):
+        clear_function_caches()
         if diffs is not None and not diffs:
             return
         for owner, label, rec in self.snap:
